@@ -247,9 +247,11 @@ def judge(args):
             # C06: a failing use surfaces unchanged, nothing is used afterwards
             if "C06" in want and fl["src"] in ("cls", "clstruthy") and kind == "fault":
                 if not o.fault_fired:
-                    # the implementation never performs that use: the premise of C06 is
-                    # vacuous here (which uses happen, and in what order, is C05's business)
+                    # the implementation never performs the use at which the standard library fails:
+                    # it finishes (or goes on) where the counterpart raises
                     cnt("C06_fault_not_reached")
+                    viol("C06", "failing-use-never-reached", {"projection": "fault", "expected": tm.fault_plan(case),
+                                                            "observed": {"ending": o.ending}, "observed_log": obs_log})
                 else:
                     ey, oy = tm.yields(exp_log), tm.yields(obs_log)
                     cls = tm.items_diff_class(ey, oy)
